@@ -211,6 +211,13 @@ def runCmds : List (List Bytes) → Sys → Bool × Sys
     let r := execCmd c s
     if r.1 then runCmds cs r.2 else r
 
+/-- fault injection: the constants of a firmware whose `k`-th service command (1-based) fails
+without any effect (`false` is not a command of `execBase`: exit status ≠ 0, state unchanged). The
+functions below stop at the first failing command, so running them with these constants is running
+them in a world where that command fails once. `k = 0` or `k` beyond the command list: no fault. -/
+def faultConsts (c : FwConsts) (k : Nat) : FwConsts :=
+  if 1 ≤ k ∧ k ≤ c.cmds.length then { c with cmds := c.cmds.take (k - 1) ++ [[b!"false"]] } else c
+
 /-- internal.SetNVRAM -/
 def setNVRAMLoop : List Bytes → Sys → Bool × Sys
   | [], s => (true, nvCommit s)
